@@ -192,6 +192,8 @@ def gen_plan(seed, tier, index):
             b['abort_at'] = r.randint(0, 6)
         if r.random() < 0.1:
             b['dup'] = True
+        if 'abort_at' not in b and r.random() < 0.12:
+            b['forced'] = r.randrange(1 << 30)      # arbitrary target prefix instead of the greedy path
         batches.append(b)
         prev = b
     cap = max(b['w'] for b in batches) // 4
@@ -354,6 +356,51 @@ def check_batch(res, ctx, k, b, x, outs, logits):
     return True
 
 
+def forced_prefix_batch(res, ctx, k, b, x, proj, log):
+    """Steps the LIVE model's decoder through an arbitrary target prefix (any symbols, incl. the
+    ignore symbol and inner boundary symbols, up to the length cap) and compares every step with
+    the teacher-forced masked forward pass and with uncached stepping on fresh copies."""
+    torch = _torch()
+    m, pristine, live = ctx['m'], ctx['pristine'], ctx['live']
+    net = live.net
+    eos = live.sentence_boundary_ind
+    rs = np.random.RandomState(int(b['forced']) % (2 ** 31))
+    length = int(rs.randint(1, b['w'] // 4 + 2))
+    labels = rs.randint(0, m['nsym'] + 2, size=(length, b['n']))
+    labels[0, :] = eos
+    fed = torch.from_numpy(labels).long()
+    xt = torch.from_numpy(x).float() / 255.0
+    proj.calls, proj.abort_at, proj.cap = 0, None, length + 3
+    enc = sut('encode', net.encode, xt)
+    embs = net.dec_embeder(fed)
+    rows = []
+    for t in range(length):
+        rows.append(net.dec_out_proj(sut('Decoder.infer(live, forced prefix)', net.trans_decoder.infer,
+                                         net.pos_encoder(embs[:t + 1]), enc, is_cached=b['cached'])))
+    got = torch.stack(rows).permute(1, 0, 2)
+    log.add('live', 'forced', [k, b['n'], b['w'], b['cached'], length, kernel.sha(got.numpy().round(2).tolist())])
+    res.probe('forced_prefix_batches')
+    if not bool(torch.isfinite(got).all()):
+        _viol(res, 'cache', 'non-finite-scores|%s' % ctx['plan']['poison'], 'scores of a forced prefix contain NaN/inf', k)
+        return False
+    tf = sut('forward', copy.deepcopy(pristine).forward, xt, fed.permute(1, 0)).permute(1, 0, 2)
+    d = _maxdiff(tf, got)
+    if d > TOL:
+        _viol(res, 'cache', 'stepwise-vs-teacher-forced-scores', 'forced prefix: step-by-step scores differ from the masked forward pass by %.3g' % d, k)
+        return False
+    fresh = copy.deepcopy(pristine)
+    enc2 = fresh.encode(xt)
+    embs2 = fresh.dec_embeder(fed)
+    worst = 0.0
+    for t in range(length):
+        out = fresh.dec_out_proj(sut('Decoder.infer(uncached)', fresh.trans_decoder.infer, fresh.pos_encoder(embs2[:t + 1]), enc2, is_cached=False))
+        worst = max(worst, _maxdiff(out, got[:, t]))
+    if worst > TOL:
+        _viol(res, 'cache', 'cached-vs-uncached-scores', 'forced prefix: scores differ from uncached recomputation by %.3g' % worst, k)
+        return False
+    return True
+
+
 def run_ocr_batch(res, ctx, k, b, x, proj, log):
     """One batch through TransformerEngineLineOCR.run_ocr (uint8 NHWC in, centre padding to 1088 px):
     must equal transcribe_batch on a fresh model given the explicitly padded input."""
@@ -448,6 +495,16 @@ def execute(plan):
                 cap_steps = b['w'] // 4 + 1
                 proj.calls, proj.abort_at, proj.cap = 0, b.get('abort_at'), cap_steps + 3
                 hist.append('%d:%d:%s' % (b['n'], b['w'], 'c' if b['cached'] else 'u'))
+                if b.get('forced') is not None:
+                    try:
+                        ok = forced_prefix_batch(res, ctx, k, b, x, proj, log)
+                    except SutRaised as e:
+                        _viol(res, 'termination', 'decode-raised|%s|%s' % (e.where, type(e.exc).__name__), str(e)[:300], k)
+                        ok = False
+                    prev = b
+                    if not ok:
+                        break
+                    continue
                 if b.get('via') == 'run_ocr':
                     ok = run_ocr_batch(res, ctx, k, b, x, proj, log)
                     prev = b
